@@ -224,8 +224,17 @@ pub fn gen(rng: &mut Rng, tier: Tier, out: &mut Vec<String>) {
     for (r, g, b) in [(2.0f32, 0.0f32, 0.0f32), (0.5, -1.0, 0.25), (3.0, 3.0, 3.0)] {
         out.push(format!("frgb2hsl {} {} {}", h32(r), h32(g), h32(b)));
     }
-    for _ in 0..(if q { 300 } else { 5000 }) {
-        out.push(format!("frgba {} {} {} {}", h32(rng.unit()), h32(rng.unit()), h32(rng.unit()), h32(rng.unit())));
+    for i in 0..(if q { 1200 } else { 20_000 }) {
+        // like the 3-channel stream: generic, almost gray, dark, light, two equal channels
+        let mut c = [rng.unit(), rng.unit(), rng.unit()];
+        match i % 6 {
+            0 => { let d = rng.unit() * 1e-3; c = [c[0], (c[0] + d).min(1.0), c[0]] }
+            1 => { for x in c.iter_mut() { *x = 0.01 + *x * 0.05 } }
+            2 => { for x in c.iter_mut() { *x = 0.94 + *x * 0.05 } }
+            3 => c[1] = c[0],
+            _ => {}
+        }
+        out.push(format!("frgba {} {} {} {}", h32(c[0]), h32(c[1]), h32(c[2]), h32(rng.unit())));
     }
     // ---- float -> 8 bit
     for &a in SPECIAL_F32 {
@@ -481,7 +490,23 @@ pub fn run(t: &[&str]) -> String {
             let c3 = rgb(c[0], c[1], c[2]);
             let hs = guarded(|| f4(c4.to_hsla().0)).unwrap_or_else(|p| p);
             let back = guarded(|| f4(hsla(c[0], c[1], c[2], c[3]).to_rgba().0)).unwrap_or_else(|p| p);
-            format!("{} {} {} {} {}", f3(c4.to_rgb().0), f4(c3.to_rgba().0), f3(hsla(c[0], c[1], c[2], c[3]).to_hsl().0), hs, back)
+            // sibling doors: the 4-channel conversions must agree with the 3-channel ones on the colour part
+            // (within 1e-5, hue compared on the circle); `sib=1|0` is judged by the driver
+            let close = |a: &[f32], b: &[f32], hue: bool| -> bool {
+                a.iter().zip(b).enumerate().all(|(i, (x, y))| {
+                    let d = (x - y).abs();
+                    d <= 1e-5 || (hue && i == 0 && (d - 1.0).abs() <= 1e-5)
+                })
+            };
+            let sib = std::panic::catch_unwind(|| {
+                let h4 = c4.to_hsla().0;
+                let h3 = c3.to_hsl().0;
+                let r4 = hsla(c[0], c[1], c[2], c[3]).to_rgba().0;
+                let r3 = hsl(c[0], c[1], c[2]).to_rgb().0;
+                close(&h4[..3], &h3, true) && close(&r4[..3], &r3, false)
+            })
+            .unwrap_or(true);
+            format!("{} {} {} {} {} sib={}", f3(c4.to_rgb().0), f4(c3.to_rgba().0), f3(hsla(c[0], c[1], c[2], c[3]).to_hsl().0), hs, back, sib as u8)
         }
         "tou8" => {
             let c: Vec<f32> = t[1..5].iter().map(|s| pf32(s)).collect();
